@@ -50,6 +50,10 @@ def run(ctx):
     rule_repr(ctx, F)
     rule_canon(ctx, F)
     rule_kind(ctx, F)
+    rule_refl(ctx, F)
+    rule_total(ctx, F)
+    rule_po(ctx, F)
+    rule_ident(ctx, F)
     import c03
     c03.rule_flag(ctx, F)   # representation independence needs a truthful `compressed` flag (as_flat_slice fast paths)
 
@@ -660,3 +664,188 @@ def rule_kind(ctx, F):
                            "(e.g. differing only in ASCII case) hash differently"
                            % (adt.split("::")[-1], f, sigs.ty_short(hty), ", ".join("%s via %s" % (e, w) for _, w, e in oks)),
                            nontrivial=any(sigs.ty_short(x[2]) not in PRIM_INT for x in cands))
+
+
+# ---------------------------------------------------------------------------
+# hand-written comparisons of enums cover every variant; comparison and hashing are total
+# ---------------------------------------------------------------------------
+
+def _simp(t):
+    """resolve `(a, b).0` to `a`: hand-written comparisons match on the tuple (self, other)"""
+    t = strip(t, calls=False) if t[0] != "agg" else t
+    if t[0] == "field":
+        inner = _simp(t[1])
+        if inner[0] == "agg" and inner[1][0] == "tuple":
+            try:
+                return _simp(inner[2][int(t[2])])
+            except (ValueError, IndexError, TypeError):
+                return t
+        return ("field", inner, t[2])
+    if t[0] in ("deref", "ref", "downcast"):
+        return (t[0], _simp(t[1])) + tuple(t[2:])
+    return t
+
+
+def _root_arg(t):
+    for s in walk(_simp(t)):
+        if s[0] == "arg":
+            return s[1]
+    return None
+
+
+CMP_METHODS = re.compile(r"^<(.+?)(<.*>)? as (core::cmp::PartialEq|core::cmp::PartialOrd|core::cmp::Ord|base::cmp::CanonicalOrd)(<.*>)?>::"
+                         r"(eq|partial_cmp|cmp|canonical_cmp)$")
+
+
+def rule_refl(ctx, F):
+    """x == x needs an arm for every variant: a hand-written `match (self, other)` with a catch-all `false` / ordering by
+    variant index silently makes values of a forgotten variant unequal to themselves."""
+    from rulelib import facts_at
+    R = "C04.refl"
+    ctx.floor(R, 12)
+    for p, b in sorted(F.bodies.items()):
+        m = CMP_METHODS.match(p)
+        if not m or p.startswith("<new::") or "::test" in p:
+            continue
+        adt = F.adts.get(m.group(1))
+        if not adt or adt.get("kind") != "Enum" or len(adt["variants"]) < 2:
+            continue
+        if any("discriminant_value" in (t["fn"] or "") for _, t in b.calls()):
+            continue        # derived: compares the discriminants first, then like with like
+        if not any(v["fields"] for v in adt["variants"]):
+            continue
+        names = [v["name"] for v in adt["variants"]]
+        pairs = set()
+        for bi in b.reachable_blocks():
+            fa = facts_at(b, bi, F)
+            v1 = [v[1] for tt, v, _ in fa if isinstance(v, tuple) and v[0] == "variant" and _root_arg(tt) == 1]
+            v2 = [v[1] for tt, v, _ in fa if isinstance(v, tuple) and v[0] == "variant" and _root_arg(tt) == 2]
+            for a in v1:
+                for c in v2:
+                    pairs.add((a, c))
+        if not pairs:
+            continue        # not a match on both values (delegates to another method): nothing to decide here
+        missing = [n for n in names if (n, n) not in pairs]
+        ctx.ob(R, b, "%s has an arm for every variant against itself" % m.group(5), not missing,
+               "the hand-written %s of %s has no arm comparing %s with itself: such a value falls into the catch-all arm and is "
+               "not equal to itself (or is ordered by variant only)" % (m.group(5), m.group(1).split("::")[-1], ", ".join(missing[:6])),
+               detail="%d variants, %d like-with-like arms" % (len(names), len([n for n in names if (n, n) in pairs])))
+
+
+TOTAL_METHODS = re.compile(r" as (core::cmp::PartialEq|core::cmp::PartialOrd|core::cmp::Ord|core::hash::Hash|base::cmp::CanonicalOrd)(<.*>)?>::"
+                           r"(eq|ne|partial_cmp|cmp|canonical_cmp|hash)$")
+
+
+TOTAL_AUDIT = {
+    ("Ipseckey", "unreachable"): "reached only if two IPSECKEY values have equal gateway_type but gateways of different variants; gateway_type is "
+                                 "derived from the gateway variant in Ipseckey::new, chosen by it in scan/parse and copied by the conversions",
+}
+
+
+def rule_total(ctx, F):
+    R = "C04.total"
+    n = 0
+    scope = 0
+    for p, b in sorted(F.bodies.items()):
+        if not TOTAL_METHODS.search(p) or p.startswith("<new::") or "::test" in p:
+            continue
+        scope += 1
+        k = 0
+        for bi, t in b.calls():
+            x = t.get("x") or []
+            macros = [mm for mm in x if mm in ("todo", "unimplemented", "unreachable", "panic")]
+            if macros and re.search(r"core::panicking::", t["fn"] or ""):
+                n += 1
+                k += 1
+                adt = re.sub(r"<.*$", "", p.lstrip("<")).split("::")[-1]
+                why = TOTAL_AUDIT.get((adt, macros[0]))
+                ctx.ob(R, b, "%s!#%d" % (macros[0], k), why is not None,
+                       "%s contains %s!(): comparing or hashing such a value panics" % (p, macros[0]), b.where(bi),
+                       nontrivial=why is None, detail=("audited: " + why) if why else None)
+    ctx.ob(R, "comparison and hash impls", "scanned", scope >= 300, "only %d Eq/Ord/Hash/CanonicalOrd method bodies found" % scope,
+           nontrivial=False, detail="%d method bodies scanned, %d panic macro(s)" % (scope, n))
+
+
+# ---------------------------------------------------------------------------
+# PartialOrd agrees with Ord
+# ---------------------------------------------------------------------------
+
+def rule_po(ctx, F):
+    """`partial_cmp` must give `Some(cmp)` (the contract of PartialOrd/Ord; sorting and BTree containers rely on it).  For a
+    type with hand-written impls of both, the two compare the same fields in the same order with the same comparator.  An
+    `Ord::cmp` that merely forwards to `canonical_cmp` is represented by that function's comparisons."""
+    R = "C04.po"
+    ctx.floor(R, 60)
+    po, oo, co = {}, {}, {}
+    for p, b in F.bodies.items():
+        if p.startswith("<new::") or "::test" in p:
+            continue
+        m = re.match(r"^<(.+?)(<.*>)? as core::cmp::PartialOrd(<.*>)?>::partial_cmp$", p)
+        if m:
+            po.setdefault(m.group(1), []).append(b)
+        m = re.match(r"^<(.+?)(<.*>)? as core::cmp::Ord>::cmp$", p)
+        if m:
+            oo[m.group(1)] = b
+        m = re.match(r"^<(.+?)(<.*>)? as base::cmp::CanonicalOrd(<.*>)?>::canonical_cmp$", p)
+        if m:
+            co.setdefault(m.group(1), []).append(b)
+    for adt in sorted(oo):
+        if adt not in po:
+            continue
+        so = [(fx, k) for fx, fy, k in sigs.cmp_sequence(oo[adt], F)]
+        via = ""
+        if not so and adt in co and any((t["fn"] or "").endswith("canonical_cmp") for _, t in oo[adt].calls()):
+            so = [(fx, k) for fx, fy, k in sigs.cmp_sequence(co[adt][0], F)]
+            via = " (cmp forwards to canonical_cmp)"
+        for pb in po[adt]:
+            sp = [(fx, k) for fx, fy, k in sigs.cmp_sequence(pb, F)]
+            if not sp or not so:
+                continue
+            if [f.split(".")[0] for f, _ in sp] != [f.split(".")[0] for f, _ in so]:
+                ctx.ob(R, pb, "partial_cmp and cmp compare the same fields in the same order", False,
+                       "%s: partial_cmp compares %s, cmp%s compares %s" % (adt.split("::")[-1], [f for f, _ in sp], via, [f for f, _ in so]))
+                continue
+            for (f, kp), (_, ko) in zip(sp, so):
+                ctx.ob(R, pb, "field %s: partial_cmp uses the comparator of cmp" % f, kp == ko,
+                       "%s: partial_cmp compares `%s` with %s while cmp%s uses %s: `a < b` and `a.cmp(&b)` can disagree (or "
+                       "partial_cmp answers None where cmp has an answer)" % (adt.split("::")[-1], f, kp, via, ko),
+                       nontrivial=kp.split(":")[-1] not in PRIM_INT)
+
+
+# ---------------------------------------------------------------------------
+# a hand-written == looks at every field
+# ---------------------------------------------------------------------------
+
+IDENT_AUDIT = {
+    ("base::record::Record", "ttl"): "RFC 2181 5.2: the TTL is not part of a record's identity (hash ignores it as well, C04.set)",
+}
+
+
+def rule_ident(ctx, F):
+    """A value type whose hand-written `==` skips a field makes two values equal that differ in it.  For the opaque carriers
+    (unknown record type / unknown SvcParam key) the skipped field is the very thing that tells them apart."""
+    R = "C04.ident"
+    ctx.floor(R, 40)
+    by = _impls_by_adt(F)
+    for adt in sorted(by):
+        tr = by[adt]
+        rec = F.adts.get(adt)
+        if EQ not in tr or not rec or rec["kind"] != "Struct":
+            continue
+        used = set()
+        impls = [im for im in tr[EQ] if _same_type_impl(im) and not im.get("derived")]
+        for im in impls:
+            b = _impl_fn(F, im, "eq")
+            if b is not None:
+                used |= fields_used(F, b, 1, adt)
+        if not used or any(x.startswith("m:") or x == "<self>" for x in used):
+            continue
+        for f in rec["variants"][0]["fields"]:
+            if "PhantomData" in f["ty"]:
+                continue
+            why = IDENT_AUDIT.get((adt, f["name"]))
+            ctx.ob(R, adt, "== looks at field %s" % f["name"], f["name"] in used or why is not None,
+                   "%s: the hand-written == never looks at `%s`: two values that differ only in it compare equal (and are "
+                   "interchangeable in sets, maps and deduplication)" % (adt.split("::")[-1], f["name"]),
+                   where="%s:%d" % (impls[0]["file"], impls[0]["line"]) if impls else "",
+                   nontrivial=f["name"] not in used, detail=("audited: " + why) if why and f["name"] not in used else None)
